@@ -299,54 +299,7 @@ func c14Globals(p *Program, r *Report) {
 	}
 	nGlobals, nWrites := 0, 0
 	pkgs := []string{"vm", "env", "parser", "ast", "core", "ast/astutil"}
-	// static callers, to recognise helpers that only package initialisers call
-	callers := map[*ssa.Function][]*ssa.Function{}
-	usedAsValue := map[*ssa.Function]bool{}
-	for _, sp := range p.SSAPkgs {
-		for _, fn := range SrcFuncs(sp) {
-			for _, b := range fn.Blocks {
-				for _, in := range b.Instrs {
-					if c, ok := in.(ssa.CallInstruction); ok {
-						if callee := staticCallee(c); callee != nil {
-							callers[callee] = append(callers[callee], fn)
-						}
-					}
-					for _, op := range in.Operands(nil) {
-						if f, ok := (*op).(*ssa.Function); ok {
-							if c, isCall := in.(ssa.CallInstruction); !isCall || c.Common().Value != ssa.Value(f) {
-								usedAsValue[f] = true
-							}
-						}
-					}
-				}
-			}
-		}
-	}
-	var isInit func(fn *ssa.Function) bool
-	initMemo := map[*ssa.Function]int{}
-	isInit = func(fn *ssa.Function) bool {
-		for f := fn; f != nil; f = f.Parent() {
-			if f.Name() == "init" || strings.HasPrefix(f.Name(), "init#") {
-				return true
-			}
-		}
-		if v, ok := initMemo[fn]; ok {
-			return v == 1
-		}
-		initMemo[fn] = 2 // in progress: treated as not-init for cycles
-		ok := fn.Parent() == nil && fn.Object() != nil && !fn.Object().Exported() && !usedAsValue[fn] && len(callers[fn]) > 0
-		if ok {
-			for _, c := range callers[fn] {
-				if !isInit(c) {
-					ok = false
-				}
-			}
-		}
-		if ok {
-			initMemo[fn] = 1
-		}
-		return ok
-	}
+	isInit := initOracle(p)
 	globalOf := func(addr ssa.Value) *ssa.Global {
 		v := addr
 		for i := 0; i < 50; i++ {
@@ -1085,4 +1038,58 @@ func c14CapturedWrites(p *Program, r *Report) {
 			bad+": that storage exists once per function value, so two executions calling the same function value at the same time (a shared library scope, a host-defined function) overwrite each other's data")
 	}
 	r.Floor("C14.R10", len(fs), 3)
+}
+
+// initOracle returns a predicate: the function runs only during package initialisation (an init function, a function
+// nested in one, or an unexported helper that only such functions call and that is never used as a value).
+func initOracle(p *Program) func(fn *ssa.Function) bool {
+	// static callers, to recognise helpers that only package initialisers call
+	callers := map[*ssa.Function][]*ssa.Function{}
+	usedAsValue := map[*ssa.Function]bool{}
+	for _, sp := range p.SSAPkgs {
+		for _, fn := range SrcFuncs(sp) {
+			for _, b := range fn.Blocks {
+				for _, in := range b.Instrs {
+					if c, ok := in.(ssa.CallInstruction); ok {
+						if callee := staticCallee(c); callee != nil {
+							callers[callee] = append(callers[callee], fn)
+						}
+					}
+					for _, op := range in.Operands(nil) {
+						if f, ok := (*op).(*ssa.Function); ok {
+							if c, isCall := in.(ssa.CallInstruction); !isCall || c.Common().Value != ssa.Value(f) {
+								usedAsValue[f] = true
+							}
+						}
+					}
+				}
+			}
+		}
+	}
+	var isInit func(fn *ssa.Function) bool
+	initMemo := map[*ssa.Function]int{}
+	isInit = func(fn *ssa.Function) bool {
+		for f := fn; f != nil; f = f.Parent() {
+			if f.Name() == "init" || strings.HasPrefix(f.Name(), "init#") {
+				return true
+			}
+		}
+		if v, ok := initMemo[fn]; ok {
+			return v == 1
+		}
+		initMemo[fn] = 2 // in progress: treated as not-init for cycles
+		ok := fn.Parent() == nil && fn.Object() != nil && !fn.Object().Exported() && !usedAsValue[fn] && len(callers[fn]) > 0
+		if ok {
+			for _, c := range callers[fn] {
+				if !isInit(c) {
+					ok = false
+				}
+			}
+		}
+		if ok {
+			initMemo[fn] = 1
+		}
+		return ok
+	}
+	return isInit
 }
